@@ -1146,3 +1146,77 @@ func mConflictDisplay(confs []vsql.Conflict, base, theirs *mSide, exp *vsql.Tabl
 	sort.Strings(out)
 	return out
 }
+
+// ---------------------------------------------------------------------------------------
+// histories
+
+// mHistoryOpts bounds one branch's history.
+type mHistoryOpts struct {
+	maxCommits, minOps, maxOps int
+}
+
+// mTrack is one table (or a set of twin tables receiving identical statements) within a history.
+type mTrack struct {
+	side   *mSide
+	tables []string
+	op     mOpOpts
+	hook   func(step int) []string // schema change callback (nil = none): see mSchemaChange.hook
+	step   int
+}
+
+func (tr *mTrack) exec(rt *rapid.T, c *mCase, stmt string) {
+	for _, tb := range tr.tables {
+		c.run(rt, mInst(stmt, tb))
+	}
+}
+
+// mRunHistory draws and executes one branch's history (1..maxCommits commits of minOps..maxOps
+// statements, each on a drawn track) on the currently checked-out branch. When the other side is
+// known (op.other) the last commit ends with up to two directed statements per track: an UPDATE
+// of a column the other side left alone on a row both sides updated, and a DELETE of a row the
+// other side never touched.
+func mRunHistory(rt *rapid.T, c *mCase, label string, tracks []*mTrack, o mHistoryOpts) {
+	nc := rapid.IntRange(1, o.maxCommits).Draw(rt, label+".commits")
+	for ci := 0; ci < nc; ci++ {
+		nops := rapid.IntRange(o.minOps, o.maxOps).Draw(rt, fmt.Sprintf("%s.c%d.nops", label, ci))
+		for oi := 0; oi < nops; oi++ {
+			tr := tracks[0]
+			if len(tracks) > 1 {
+				tr = tracks[rapid.IntRange(0, len(tracks)-1).Draw(rt, fmt.Sprintf("%s.c%d.o%d.track", label, ci, oi))]
+			}
+			if tr.hook != nil {
+				for _, ddl := range tr.hook(tr.step) {
+					tr.exec(rt, c, ddl)
+				}
+			}
+			tr.step++
+			tr.exec(rt, c, tr.side.genOp(rt, fmt.Sprintf("%s.c%d.o%d", label, ci, oi), tr.op))
+		}
+		if ci == nc-1 {
+			for ti, tr := range tracks {
+				if tr.hook != nil {
+					for _, ddl := range tr.hook(-1) { // not yet applied: apply at the end
+						tr.exec(rt, c, ddl)
+					}
+				}
+				if tr.op.other == nil {
+					continue
+				}
+				lb := fmt.Sprintf("%s.tail%d", label, ti)
+				if rapid.Bool().Draw(rt, lb+".disjoint") {
+					if st := tr.side.genDisjointUpdate(rt, lb, tr.op); st != "" {
+						tr.side.Ops = append(tr.side.Ops, st)
+						tr.exec(rt, c, st)
+					}
+				}
+				if rapid.Bool().Draw(rt, lb+".quietdel") {
+					if st := tr.side.genQuietDelete(rt, lb, tr.op); st != "" {
+						tr.side.Ops = append(tr.side.Ops, st)
+						tr.exec(rt, c, st)
+					}
+				}
+			}
+		}
+		c.run(rt, fmt.Sprintf("CALL dolt_commit('-A','--allow-empty','-m','%s commit %d')", label, ci))
+	}
+}
